@@ -156,3 +156,29 @@ fn r8_utf8_against_core() {
     let edge = [0x00u8, 0x41, 0x7f, 0x80, 0x8f, 0x90, 0x9f, 0xa0, 0xbf, 0xc0, 0xc2, 0xdf, 0xe0, 0xed, 0xef, 0xf0, 0xf4, 0xf5, 0xff];
     for a in 0..=255u8 { for b in 0..=255u8 { for &c in &edge { for &d in &edge { chk([a, b, c, d], 4); } } } }
 }
+
+#[test]
+fn r5_f32_to_half_against_half_crate_and_exactness() {
+    // (1) exact on every half-representable value
+    for h in 0..=u16::MAX {
+        let e = (h >> 10) & 0x1f; let m = h & 0x3ff;
+        if e == 31 && m != 0 { continue }
+        assert_eq!(f32_to_half_rne(half_to_f32_bits(h)), h, "{h:#x}");
+    }
+    // (2) agreement with the `half` crate's software conversion on a dense stratified set:
+    // every exponent x boundary mantissas, plus 2^24 pseudo-random patterns
+    let chk = |x: u32| {
+        let want = half::f16::from_f32(f32::from_bits(x)).to_bits();
+        let got = f32_to_half_rne(x);
+        if f32::from_bits(x).is_nan() { assert!(half::f16::from_bits(got).is_nan()); assert_eq!(got >> 15, want >> 15) }
+        else { assert_eq!(got, want, "{x:#x}") }
+    };
+    let ms = [0u32, 1, 0xfff, 0x1000, 0x1001, 0x1fff, 0x2000, 0x2fff, 0x3000, 0x3001, 0x7fefff, 0x7ff000, 0x7ff001, 0x7fffff, 0x400000, 0x3fffff];
+    for s in 0..2u32 { for e in 0..=255u32 { for &m in &ms { chk((s << 31) | (e << 23) | m); } } }
+    let mut x = 0x2545f491u32;
+    for _ in 0..(1 << 22) { x ^= x << 13; x ^= x >> 17; x ^= x << 5; chk(x); chk(x & 0xc7ff_ffff | 0x3800_0000); }
+    // the region around the overflow threshold and the subnormal boundary, exhaustively
+    for x in 0x477f_0000u32..0x4780_2000 { chk(x); chk(x | 0x8000_0000); }
+    for x in 0x3300_0000u32..0x3380_0100 { chk(x); }
+    for x in 0x3870_0000u32..0x3880_1000 { chk(x); }
+}
